@@ -188,6 +188,15 @@ impl Collect for RecCollector {
                     Interest::never()
                 }
             }
+            // a switchable collector: while it is off it wants nothing, while on it is a static filter; whoever flips it
+            // calls rebuild_interest_cache() afterwards, as the documentation demands
+            "sw" => {
+                if self.filter.static_part(m) && self.flag.load(Ordering::SeqCst) {
+                    Interest::always()
+                } else {
+                    Interest::never()
+                }
+            }
             "dyn" => {
                 if self.filter.static_part(m) {
                     Interest::sometimes()
@@ -211,6 +220,9 @@ impl Collect for RecCollector {
         r
     }
     fn max_level_hint(&self) -> Option<LevelFilter> {
+        if self.filter.kind == "sw" && !self.flag.load(Ordering::SeqCst) {
+            return Some(LevelFilter::OFF);
+        }
         match self.hint_cell.load(Ordering::SeqCst) {
             99 => self.filter.hint.map(filter_of_rank),
             r => Some(filter_of_rank(r)),
